@@ -272,6 +272,16 @@ func (c *Ctx) selField(b CVal, f string, x Expr) CVal {
 	if b.GT == nil {
 		cfail("field %s of untyped value in %s", f, exprString(x))
 	}
+	// ghost fields of interface-typed objects (e.g. the remaining length of a token stream)
+	if n, isNamed := b.GT.(*types.Named); isNamed {
+		if _, isIface := n.Underlying().(*types.Interface); isIface {
+			if srt, ok := e.p.cs.Ghosts[n.Obj().Name()+"."+f]; ok {
+				h := c.st.heapGet(e, "G."+n.Obj().Name()+"."+f, arrSort(srt))
+				return CVal{T: tSelect(h, b.T)}
+			}
+			cfail("no ghost field %s on interface %s", f, n.Obj().Name())
+		}
+	}
 	bt, isPtr := derefType(b.GT)
 	st, ok := bt.Underlying().(*types.Struct)
 	if !ok {
